@@ -65,3 +65,25 @@ Definition sx_json_sets (b : bool) (p : pv) : sx :=
       | None => SA "raises"
       end;
       match delta_of_pv b p with Some d => sx_delta d | None => SA "not-an-ordered-mode-delta" end].
+
+(** ignore_order payloads: the index maps (Pickle/DeltaIOCodec.v, Delta/DeltaIO.v) *)
+From DD Require Import Hash.HashModel DiffIO.DiffIOModel DiffIO.DiffIOShow Delta.DeltaIO Delta.DeltaIOShow Pickle.DeltaIOCodec.
+Definition sx_dio (d : delta_io) : sx :=
+  SL [sx_delta (io_base d);
+      SL (sx_sort (map (sx_imap "addat") (io_added d) ++ map (sx_imap "remat") (io_removed d)))].
+(* the delta_io read from a real dump; read again after the canonical re-encoding; the payload rebuilt from it *)
+Definition sx_delta_io_all (w : world) (b : bool) (prog : list op) : sx :=
+  match load w prog with
+  | Some p =>
+      match delta_io_of_pv b p with
+      | Some d =>
+          SL [sx_dio d;
+              match load w (enc_prog (pv_of_delta_io d)) with
+              | Some p' => match delta_io_of_pv b p' with Some d' => sx_dio d' | None => SA "not-an-ignore-order-delta" end
+              | None => SA "raises"
+              end;
+              sx_pv (pv_of_delta_io d)]
+      | None => SA "not-an-ignore-order-delta"
+      end
+  | None => SA "raises"
+  end.
